@@ -4,61 +4,79 @@
 package sim
 
 import (
+	"bytes"
 	"errors"
 	"fmt"
 	"hash/fnv"
+	"runtime"
+	"strconv"
+	"sync/atomic"
+	"time"
 
 	"verifsim/hook"
 	"verifsim/tape"
 )
 
 type Task struct {
-	ID      int
-	Name    string
-	Tag     string
-	wake    chan struct{}
-	Done    bool
-	blocked func() bool
-	What    string
-	Steps   int
-	Locks   int
+	ID          int
+	Name        string
+	Tag         string
+	wake        chan struct{}
+	Done        bool
+	blocked     func() bool
+	What        string
+	Steps       int
+	Locks       int
 	LockTouched bool // acquired or released a simulator-tracked lock since the last shared-state check
-	Panic   any
-	PanicStack string
-	Site    int // last yield site (pkg<<20|site), 0 = a seam outside generated code
-	started bool
-	fn      func()
-	vc      vclock
-	OnOwnStep func(n int) // called on the task's goroutine at each of its yields (own-progress anchored faults)
+	Panic       any
+	PanicStack  string
+	Site        int // last yield site (pkg<<20|site), 0 = a seam outside generated code
+	started     bool
+	fn          func()
+	vc          vclock
+	Parent      *Task // the task whose `go` statement started this one (generated code with goroutines of its own)
+	gid         int64
+	inOp        bool        // between hook.Pre() and hook.Post(): executing a real operation that may block on another task
+	realBlocked bool        // found blocked inside that operation; it comes back through Post()
+	postParked  bool        // ... and has: parked in Post(), waiting to be picked
+	OnOwnStep   func(n int) // called on the task's goroutine at each of its yields (own-progress anchored faults)
 }
 
 type Sched struct {
-	T        *tape.Tape
-	Tasks    []*Task
-	Cur      *Task
-	last     *Task
-	back     chan struct{}
-	Steps    int
-	StepCap  int
-	Strategy int // 0 sticky, 1 uniform
-	SitePct  int // percentage of yield sites enabled
-	Salt     uint64
-	Switches int
+	T          *tape.Tape
+	Tasks      []*Task
+	Cur        *Task
+	last       *Task
+	back       chan *Task
+	Steps      int
+	StepCap    int
+	Strategy   int // 0 sticky, 1 uniform
+	SitePct    int // percentage of yield sites enabled
+	Salt       uint64
+	Switches   int
 	SwitchHash uint64
-	Pairs    map[uint64]struct{} // (site parked, site resumed) across context switches
-	SameFunc func(a, b int) bool
-	Probes   map[string]int
-	AfterStep func(t *Task) // scheduler goroutine, after every step
-	Log      []string
-	LogOn    bool
-	race     *raceDet
+	Pairs      map[uint64]struct{} // (site parked, site resumed) across context switches
+	SameFunc   func(a, b int) bool
+	Probes     map[string]int
+	AfterStep  func(t *Task) // scheduler goroutine, after every step
+	Log        []string
+	LogOn      bool
+	race       *raceDet
+	// RealBlock: the generated package has goroutines / channel operations of its own. Their blocking operations are
+	// the real ones; the scheduler finds out by a goroutine dump that the task it released is blocked in one.
+	RealBlock bool
+	lk        spinLock
+	opDone    int32 // a bracketed operation, a spawn or a task end happened since the last settle (only those can wake a blocked task)
 }
+
+// Debug, when set, receives one line per scheduling decision (diagnostics only).
+var Debug func(string)
 
 var ErrStall = errors.New("stall: unfinished tasks but nothing runnable")
 var ErrStepCap = errors.New("step cap exceeded")
 
 func New(t *tape.Tape) *Sched {
-	return &Sched{T: t, back: make(chan struct{}), StepCap: 2_000_000, SitePct: 100, Pairs: map[uint64]struct{}{}, Probes: map[string]int{}}
+	return &Sched{T: t, back: make(chan *Task), StepCap: 2_000_000, SitePct: 100, Pairs: map[uint64]struct{}{}, Probes: map[string]int{}}
 }
 
 func (s *Sched) Logf(f string, a ...any) {
@@ -77,6 +95,7 @@ func (s *Sched) Go(name, tag string, fn func()) *Task {
 	t.vc.set(t.ID, 1)
 	s.Tasks = append(s.Tasks, t)
 	go func() {
+		t.gid = curGID()
 		<-t.wake
 		defer func() {
 			if r := recover(); r != nil {
@@ -85,8 +104,9 @@ func (s *Sched) Go(name, tag string, fn func()) *Task {
 			if s.race != nil {
 				s.race.hand.join(t.vc)
 			}
+			atomic.StoreInt32(&s.opDone, 1)
 			t.Done = true
-			s.back <- struct{}{}
+			s.back <- t
 		}()
 		t.fn()
 	}()
@@ -110,7 +130,7 @@ func (s *Sched) yield(what string) {
 		t.OnOwnStep(t.Steps)
 	}
 	t.What = what
-	s.back <- struct{}{}
+	s.back <- t
 	<-t.wake
 }
 
@@ -141,7 +161,7 @@ func (s *Sched) block(what string, ready func() bool) {
 	t.blocked = ready
 	t.What = what
 	t.Steps++
-	s.back <- struct{}{}
+	s.back <- t
 	<-t.wake
 }
 
@@ -189,6 +209,75 @@ func (s *Sched) Install() {
 			}
 		}
 	}
+	hook.GoFn = func(fn func()) {
+		parent := s.Cur
+		if parent == nil {
+			go fn()
+			return
+		}
+		s.Probes["goroutines_started_by_generated_code"]++
+		atomic.StoreInt32(&s.opDone, 1)
+		t := s.Go("go:"+parent.Name, parent.Tag, fn)
+		t.Parent = parent
+		s.yield("go")
+	}
+	hook.WokeFn = func() { atomic.StoreInt32(&s.opDone, 1) }
+	hook.PreFn = func() {
+		atomic.StoreInt32(&s.opDone, 1)
+		if t := s.Cur; t != nil && t.gid == curGID() {
+			s.yield("pre-op")
+			s.lk.Lock()
+			t.inOp = true
+			s.lk.Unlock()
+		}
+	}
+	hook.PostFn = func() {
+		atomic.StoreInt32(&s.opDone, 1)
+		gid := curGID()
+		s.lk.Lock()
+		var t *Task
+		for _, x := range s.Tasks {
+			if x.gid == gid && !x.Done {
+				t = x
+			}
+		}
+		if t == nil {
+			s.lk.Unlock()
+			return
+		}
+		if !t.realBlocked {
+			t.inOp = false
+			s.lk.Unlock()
+			return
+		}
+		t.postParked = true // the scheduler took the slot away while the operation was blocked: wait to be picked
+		s.lk.Unlock()
+		<-t.wake
+	}
+	hook.SelectOrderFn = func(n int) []int {
+		order := make([]int, n)
+		for i := range order {
+			order[i] = i
+		}
+		if s.Cur == nil {
+			return order
+		}
+		for i := 0; i < n-1; i++ {
+			if j := i + s.T.Choose(n-i, "select-order"); j != i {
+				order[i], order[j] = order[j], order[i]
+			}
+		}
+		return order
+	}
+	hook.SelectWaitFn = func() {
+		if t := s.Cur; t != nil && t.gid == curGID() {
+			// nothing ready: not worth running again before somebody else has made a step
+			gen := s.Steps
+			s.block("select", func() bool { return s.Steps > gen+1 || s.onlyPollersLeft(t) })
+			return
+		}
+		time.Sleep(50 * time.Microsecond)
+	}
 	hook.AccFn, hook.PoolEvent = nil, nil
 	if s.race != nil {
 		hook.AccFn = func(pkg, site int, keep any, addr, size uintptr, label string, write, isMap bool) {
@@ -206,11 +295,18 @@ func (s *Sched) Install() {
 
 func Uninstall() {
 	hook.YieldFn, hook.BlockFn, hook.LockEvent, hook.SeamFn, hook.AccFn, hook.PoolEvent = nil, nil, nil, nil, nil, nil
+	hook.GoFn, hook.PreFn, hook.PostFn, hook.SelectOrderFn, hook.SelectWaitFn, hook.WokeFn = nil, nil, nil, nil, nil, nil
 }
 
 // Run drives the tasks until all are done.
 func (s *Sched) Run() error {
+	stallChecks := 0
 	for {
+		if s.RealBlock {
+			// (re-confirming only after steps that bracketed an operation was tried and is not enough: measured
+			// divergences between GOMAXPROCS 1 and 4)
+			s.settle()
+		}
 		var runnable []*Task
 		unfinished := 0
 		for _, t := range s.Tasks {
@@ -218,6 +314,9 @@ func (s *Sched) Run() error {
 				continue
 			}
 			unfinished++
+			if t.realBlocked && !t.postParked {
+				continue // blocked in a real operation of the generated code
+			}
 			if t.blocked == nil {
 				runnable = append(runnable, t)
 			} else if t.blocked() {
@@ -229,8 +328,16 @@ func (s *Sched) Run() error {
 			return nil
 		}
 		if len(runnable) == 0 {
+			if s.RealBlock && stallChecks < 200 {
+				// a task may be on its way out of a real operation: a stall is only declared on a settled system
+				stallChecks++
+				time.Sleep(50 * time.Microsecond)
+				s.settle()
+				continue
+			}
 			return ErrStall
 		}
+		stallChecks = 0
 		// the task that ran last comes first: choice 0 = keep going
 		if s.last != nil {
 			for i, t := range runnable {
@@ -254,6 +361,19 @@ func (s *Sched) Run() error {
 			}
 		}
 		t := runnable[idx]
+		if Debug != nil {
+			var names []string
+			for _, r := range runnable {
+				names = append(names, r.Name)
+			}
+			var rb []string
+			for _, x := range s.Tasks {
+				if !x.Done && x.realBlocked {
+					rb = append(rb, fmt.Sprintf("%s(parked=%v)", x.Name, x.postParked))
+				}
+			}
+			Debug(fmt.Sprintf("step %d pick %s among %v real-blocked %v", s.Steps, t.Name, names, rb))
+		}
 		if t != s.last && s.last != nil {
 			s.Switches++
 			s.SwitchHash = s.SwitchHash*1099511628211 ^ uint64(t.ID)<<40 ^ uint64(t.Site)
@@ -265,8 +385,13 @@ func (s *Sched) Run() error {
 			}
 		}
 		s.Cur, s.last = t, t
+		if t.postParked {
+			s.lk.Lock()
+			t.postParked, t.realBlocked, t.inOp = false, false, false
+			s.lk.Unlock()
+		}
 		t.wake <- struct{}{}
-		<-s.back
+		s.awaitStep(t)
 		s.Cur = nil
 		s.Steps++
 		if s.AfterStep != nil {
@@ -283,8 +408,182 @@ func (s *Sched) Blocked() []string {
 	var out []string
 	for _, t := range s.Tasks {
 		if !t.Done {
-			out = append(out, fmt.Sprintf("%s waiting on %s", t.Name, t.What))
+			extra := ""
+			if s.RealBlock {
+				extra = fmt.Sprintf(" (in-op=%v real-blocked=%v parked-after-op=%v waiting-for-condition=%v goroutine=%d:%s)", t.inOp, t.realBlocked, t.postParked, t.blocked != nil, t.gid, goroutineWhere(t.gid))
+			}
+			out = append(out, fmt.Sprintf("%s waiting on %s%s", t.Name, t.What, extra))
 		}
 	}
 	return out
+}
+
+// ---- real blocking operations of the generated code ------------------------------------------------
+
+type spinLock struct{ v int32 }
+
+func (l *spinLock) Lock() {
+	for !atomic.CompareAndSwapInt32(&l.v, 0, 1) {
+		runtime.Gosched()
+	}
+}
+func (l *spinLock) Unlock() { atomic.StoreInt32(&l.v, 0) }
+
+func curGID() int64 {
+	var buf [64]byte
+	b := buf[:runtime.Stack(buf[:], false)]
+	b = bytes.TrimPrefix(b, []byte("goroutine "))
+	if i := bytes.IndexByte(b, ' '); i > 0 {
+		id, _ := strconv.ParseInt(string(b[:i]), 10, 64)
+		return id
+	}
+	return -1
+}
+
+// blockedGoroutines: goroutine id -> parked by the runtime on a channel, select or sync primitive.
+func blockedGoroutines() map[int64]bool {
+	buf := make([]byte, 1<<16)
+	for {
+		n := runtime.Stack(buf, true)
+		if n < len(buf) {
+			buf = buf[:n]
+			break
+		}
+		buf = make([]byte, 2*len(buf))
+	}
+	out := map[int64]bool{}
+	for _, line := range bytes.Split(buf, []byte("\n")) {
+		if !bytes.HasPrefix(line, []byte("goroutine ")) {
+			continue
+		}
+		rest := line[len("goroutine "):]
+		i, j := bytes.IndexByte(rest, ' '), bytes.IndexByte(rest, '[')
+		if i < 0 || j < 0 {
+			continue
+		}
+		id, err := strconv.ParseInt(string(rest[:i]), 10, 64)
+		if err != nil {
+			continue
+		}
+		st := rest[j+1:]
+		for _, p := range []string{"chan receive", "chan send", "select", "sync.", "semacquire"} {
+			if bytes.HasPrefix(st, []byte(p)) {
+				out[id] = true
+			}
+		}
+	}
+	return out
+}
+
+// awaitStep waits until the released task gives the slot back - by yielding, by finishing, or (packages with
+// goroutines of their own) by being found blocked inside a bracketed real operation.
+func (s *Sched) awaitStep(t *Task) {
+	if !s.RealBlock {
+		if got := <-s.back; got != t {
+			panic(fmt.Sprintf("sim: task %s gave the slot back while %s held it", got.Name, t.Name))
+		}
+		return
+	}
+	for {
+		select {
+		case got := <-s.back:
+			if got != t {
+				panic(fmt.Sprintf("sim: task %s (in-op=%v real-blocked=%v parked=%v, %s) gave the slot back while %s held it", got.Name, got.inOp, got.realBlocked, got.postParked, got.What, t.Name))
+			}
+			return
+		case <-time.After(100 * time.Microsecond):
+			s.lk.Lock()
+			in := t.inOp
+			s.lk.Unlock()
+			if in && blockedGoroutines()[t.gid] {
+				// blocked - but inside the operation? The task may have left it (Post() clears inOp) and be waiting
+				// to hand the slot back to us right now: only a task that is still in-op is blocked in the operation.
+				s.lk.Lock()
+				still := t.inOp
+				if still {
+					t.realBlocked = true
+				}
+				s.lk.Unlock()
+				if still {
+					s.Probes["task_blocked_in_a_real_operation_of_generated_code"]++
+					return
+				}
+			}
+		}
+	}
+}
+
+// settle waits until every task that was blocked in a real operation is either still blocked or has come back
+// and parked in Post(): only then is the set of runnable tasks a function of the schedule alone.
+func (s *Sched) settle() {
+	for spins := 0; ; spins++ {
+		s.lk.Lock()
+		var transit []*Task
+		for _, t := range s.Tasks {
+			if !t.Done && t.realBlocked && !t.postParked {
+				transit = append(transit, t)
+			}
+		}
+		s.lk.Unlock()
+		if len(transit) == 0 {
+			return
+		}
+		dump := blockedGoroutines()
+		ok := true
+		s.lk.Lock()
+		for _, t := range transit {
+			if !t.postParked && !dump[t.gid] {
+				ok = false // woken, on its way to Post()
+			}
+		}
+		s.lk.Unlock()
+		if ok {
+			if Debug != nil {
+				for _, t := range transit {
+					Debug(fmt.Sprintf("  settle: %s parked=%v dump-blocked=%v where=%s", t.Name, t.postParked, dump[t.gid], goroutineWhere(t.gid)))
+				}
+			}
+			return
+		}
+		if spins > 200000 {
+			panic("sim: a task left a blocking operation and never reached hook.Post()")
+		}
+		time.Sleep(20 * time.Microsecond)
+	}
+}
+
+func (s *Sched) onlyPollersLeft(self *Task) bool {
+	for _, t := range s.Tasks {
+		if t != self && !t.Done && !(t.realBlocked && !t.postParked) && t.What != "select" {
+			return false
+		}
+	}
+	return true
+}
+
+// goroutineWhere: state and innermost non-runtime frames of one goroutine (diagnostics of a stall).
+func goroutineWhere(gid int64) string {
+	buf := make([]byte, 1<<20)
+	buf = buf[:runtime.Stack(buf, true)]
+	head := []byte(fmt.Sprintf("goroutine %d [", gid))
+	i := bytes.Index(buf, head)
+	if i < 0 {
+		return "gone"
+	}
+	rest := buf[i:]
+	if j := bytes.Index(rest, []byte("\n\n")); j > 0 {
+		rest = rest[:j]
+	}
+	lines := bytes.Split(rest, []byte("\n"))
+	var out []string
+	for k, l := range lines {
+		if k == 0 {
+			out = append(out, string(l))
+			continue
+		}
+		if len(l) > 0 && l[0] != '\t' && !bytes.HasPrefix(l, []byte("runtime.")) && len(out) < 6 {
+			out = append(out, string(l))
+		}
+	}
+	return fmt.Sprint(out)
 }
